@@ -109,6 +109,8 @@ pub struct FaultPlan {
 #[derive(Default)]
 struct Globals {
     defaults: HashMap<usize, Arc<Spec>>,
+    /// specs of spawns through `Default` whose value has not been created yet (type -> queue)
+    pending_default: HashMap<usize, std::collections::VecDeque<Arc<Spec>>>,
     task_tag: HashMap<u32, u32>,
     started_count: HashMap<u32, u32>,
     cb_count: HashMap<u32, u32>,
@@ -134,6 +136,21 @@ pub fn set_default_spec(k: usize, spec: Arc<Spec>) {
     with_g(|g| {
         g.defaults.insert(k, spec);
     });
+}
+/// a spawn through `Default::default()` is about to be made for this declaration: the next default-created value of
+/// the type is its actor - whenever the library gets round to creating it (inside the spawn call, or in the new task)
+pub fn expect_default_spawn(k: usize, spec: Arc<Spec>) {
+    IN_DEFAULT_SPAWN.with(|c| *c.borrow_mut() = Some((k, spec)));
+}
+/// the spawn call has returned: if the library has not created the value yet (it may do so in the new task), the
+/// declaration waits in a queue for the next default-created value of its type that is not a recreate-restart
+pub fn default_spawn_returned() {
+    if let Some((k, spec)) = IN_DEFAULT_SPAWN.with(|c| c.borrow_mut().take()) {
+        with_g(|g| g.pending_default.entry(k).or_default().push_back(spec));
+    }
+}
+thread_local! {
+    static IN_DEFAULT_SPAWN: std::cell::RefCell<Option<(usize, Arc<Spec>)>> = const { std::cell::RefCell::new(None) };
 }
 pub fn register_spec(spec: Arc<Spec>) {
     with_g(|g| {
@@ -188,9 +205,25 @@ impl<const KK: usize> Probe<KK> {
 
 impl<const KK: usize> Default for Probe<KK> {
     fn default() -> Self {
-        let spec = with_g(|g| g.defaults.get(&KK).cloned()).unwrap_or_else(|| {
-            Arc::new(Spec { tag: 9000 + KK as u32, ..Default::default() })
+        // whose value is this?  (1) created inside a spawn-through-Default call of this thread: that declaration's;
+        // (2) created inside the task of an actor that has started before: a recreate-from-default restart (the tag is
+        // resolved from the task in `started`); (3) a spawn-through-Default whose call has returned without creating
+        // the value: the oldest such declaration of this type; (4) otherwise the type's default spec (on-demand
+        // service instances)
+        let here = IN_DEFAULT_SPAWN.with(|c| {
+            let mut c = c.borrow_mut();
+            if matches!(&*c, Some((k, _)) if *k == KK) { c.take().map(|x| x.1) } else { None }
         });
+        let task = rt::now_and_task().1;
+        let spec = here
+            .or_else(|| {
+                with_g(|g| {
+                    let restarting = task != u32::MAX && g.task_tag.contains_key(&task);
+                    let lazy = if restarting { None } else { g.pending_default.get_mut(&KK).and_then(|q| q.pop_front()) };
+                    lazy.or_else(|| g.defaults.get(&KK).cloned())
+                })
+            })
+            .unwrap_or_else(|| Arc::new(Spec { tag: 9000 + KK as u32, ..Default::default() }));
         let mut p = Probe::new(spec);
         // (the creation is an event of its own: a lookup that spawns a service on demand creates the value inside its
         // own interval, whether or not it then waits for `started()`)
